@@ -345,5 +345,5 @@ def check_case(case):
     return r
 
 
-PARTS = [Part("espirit", check_case, {"quick": 250, "thorough": 5000}, strategy=st_case,
+PARTS = [Part("espirit", check_case, {"quick": 1500, "thorough": 5000}, strategy=st_case,
               shrink={"quick": False, "thorough": True})]
